@@ -356,6 +356,41 @@ fn verify_sweeps<V: Variant>(ctx: &mut Ctx, pk: &V::Pk, dmax: usize, tailbits: u
     t.into_part(ctx, part, "true", "false");
 }
 
+/// verify under every scripted shape of HashToPoint's XOF stream (the message decides the stream; the hook lets
+/// the harness choose it): a boolean, never a panic
+fn verify_under_scripted_hash<V: Variant>(ctx: &mut Ctx, pk: &V::Pk, valid_sig: &[u8], tier: Tier) {
+    let n = V::N;
+    let fam = super::c14::scripted_streams(n, tier.thorough());
+    let zero_body = vec![0u8; valid_sig.len() - 41];
+    let t = fam
+        .par_iter()
+        .map(|(name, chunks)| {
+            let mut t = Tally::default();
+            let prefix: Vec<u8> = chunks.iter().flat_map(|v| [(v >> 8) as u8, (v & 0xff) as u8]).collect();
+            for sigbytes in [valid_sig.to_vec(), sig_with_body::<V>(&zero_body)] {
+                falcon_rust::verif_hooks::install_xof_prefix(prefix.clone());
+                let site = format!("{}::verify", V::name());
+                let r = catch(|| match V::sig_from_bytes(&sigbytes) {
+                    Ok(sig) => {
+                        if V::verify(b"scripted", &sig, pk) {
+                            Ok(())
+                        } else {
+                            Err("false".to_string())
+                        }
+                    }
+                    Err(e) => Err(e),
+                });
+                falcon_rust::verif_hooks::uninstall_xof_prefix();
+                t.record(&site, r, || json!({"kind":"verify-stream","variant":n,"stream":name}));
+            }
+            t
+        })
+        .reduce(Tally::default, reduce);
+    let mut part = Part::new(&format!("verify_under_scripted_hash_stream_{}", n), "verify (an honest signature and the all-zero body) while HashToPoint's XOF reader delivers each scripted chunk stream of C14's family first: runs of up to 2048 rejected chunks at four positions, many rejected chunks spread out, every m-th chunk rejected, constant streams");
+    part.exhaustive = true;
+    t.into_part(ctx, part, "true", "false");
+}
+
 fn one_variant<V: Variant>(ctx: &mut Ctx, tier: Tier) {
     let (sk, pk) = crate::api::key::<V>(0);
     let valid_pk = V::pk_to_bytes(&pk);
@@ -368,6 +403,7 @@ fn one_variant<V: Variant>(ctx: &mut Ctx, tier: Tier) {
     } else {
         verify_sweeps::<V>(ctx, &pk, 24, 10);
     }
+    verify_under_scripted_hash::<V>(ctx, &pk, &valid_sig, tier);
     ctx.sample(json!({"variant": V::N, "decoder":"Signature::from_bytes","len":valid_sig.len(),"header":format!("{:02x}", valid_sig[0]),"result":"Ok"}));
 }
 
@@ -408,6 +444,7 @@ pub fn replay(case: &Value) -> Result<Option<String>, String> {
                 verify_case::<V1024>(&mut t, &pk, &msg, &sig)
             }
         }
+        "verify-stream" => return Err("re-run ./vf check C03 (the stream family is enumerated deterministically)".into()),
         _ => return Err(format!("unknown kind {}", kind)),
     }
     Ok(t.found.into_iter().next().map(|(_, f)| f.what))
